@@ -113,7 +113,10 @@ CHECKS.update({
         'of derived tables is Python-set order, so they are validated against the relation) and the derivations that are '
         'deterministic given their inputs (face_edge from edge_node, edge_face from face_edge, face_face from edge_face) are '
         'compared exactly with the model.  C10_derived_face_edge / edge_face / face_face prove that those three '
-        'derivations, as modelled from the code, always produce tables the relation accepts (for every valid face and edge list).',
+        'derivations, as modelled from the code, always produce tables the relation accepts (for every valid face and edge list).  '
+        'C10_fill_is_no_element / C10_decimal_digits (model Fill.v) prove that the all-nines value marking a missing entry in the '
+        'normalised tables is the number of no node, face or edge; sensible_fill_value is compared with the model per mesh and on '
+        'counts of every magnitude.',
         'Trusted: Coq kernel; model Topology.v; python restatement of the relation (cross-checked against the verified '
         'checker per case).  Without any edge dimension (none declared or implied) the code refuses edge-based tables; that is '
         'outside the property\'s quantifier and only counted.',
@@ -132,9 +135,15 @@ CHECKS.update({
         'dimensions, one or two coordinates per dimension, every orientation, variables on every grid kind with the depth '
         'dimension anywhere, floors from dry to fully wet with gaps, through operations.depth.ocean_floor and the accessor; '
         'every reduced column is compared with the deepest physically valid value and with the model; untouched variables, '
-        'removed depth dimensions / coordinates, unchanged polygons and purity are checked on the implementation.',
-        'Trusted: Coq kernel; model Depth.v (xarray cumsum(skipna) / argmax / isel semantics modelled).  The grouping of '
-        'variables by spatial dimension set is exercised, not modelled.',
+        'removed depth dimensions / coordinates, unchanged polygons and purity are checked on the implementation.  Model '
+        'FloorPlan.v holds the loops of ocean_floor over depth dimensions, data variables and dimension sets: '
+        'C12_other_variables_untouched, C12_every_depth_variable_reduced (none skipped or dropped; reduced at the floor of the '
+        'first data variable on the same depth and horizontal dimensions), C12_group_shares_reference, '
+        'C12_depth_dimensions_removed and C12_depth_dimension_order_irrelevant (the code visits them in hash order); per run the '
+        'variables present in the result and their dimension sets are compared with the model plan (datasets also hold variables '
+        'along a depth dimension only, which go with the dimension).',
+        'Trusted: Coq kernel; models Depth.v (xarray cumsum(skipna) / argmax / isel semantics modelled) and FloorPlan.v (the '
+        'order of dimensions within a reduced variable is left to xarray and compared as a set).',
         'DESIGN.md section 4 C12'),
     'C13': (
         'Coq proof (loop invariant over the depth coordinates of a dimension: rows, physical depths and bounds reversed together; order; idempotence) + vm_compute correspondence',
@@ -167,8 +176,13 @@ CHECKS.update({
         'and the units string; the time axis carries no bounds, bounds inheriting its units, or bounds with units of their '
         'own.  C17_time_coordinate_* (model TimeCoord.v of Convention.time_coordinate): the variable taken for the time '
         'coordinate is the first decoded time variable that is not the bounds of another variable, wherever the bounds are '
-        'listed (the _refuted witness documents the defect repaired in 171c774); compared per run with the implementation.',
-        'Trusted: Coq kernel; models TimeUnits.v, TimeCoord.v.  PARTIAL: calendar arithmetic (cftime, datetime), the netCDF write/read and '
+        'listed (the _refuted witness documents the defect repaired in 171c774); compared per run with the implementation.  '
+        'C17_no_fill_value_gained / C17_fixup_minimal / C17_fixup_idempotent (model SaveFixes.v of disable_default_fill_value and '
+        'the rule by which the writer picks a fill value): every variable, coordinates included, is written with exactly the '
+        'fill value its source declared; the _refuted witnesses show the fix-up is needed and needed on coordinates; the '
+        '_FillValue attributes of every saved file are compared with the model per run.',
+        'Trusted: Coq kernel; models TimeUnits.v, TimeCoord.v, SaveFixes.v (the writer\'s rule - encoding entry, then attribute, '
+        'then NaN for types that have one - is xarray\'s, modelled and compared per run).  PARTIAL: calendar arithmetic (cftime, datetime), the netCDF write/read and '
         'xarray\'s CF encoding are not modelled - the file round trip is established per run only.  parse_zone is a model of '
         'cftime\'s zone-designator reading validated by probing and by the per-run re-read.',
         'DESIGN.md section 4 C17'),
@@ -283,8 +297,13 @@ CHECKS.update({
         'polygon where geometry is stored explicitly; every connectivity variable of the input present, equal to the model, '
         'consistent with the others (relation of C10), same integer type and start_index in the saved file; '
         'select_variables on subsets of the data variables (bounds as plain variables and as coordinates) leaves polygons '
-        'and convention identical.',
-        'Trusted: Coq kernel; models Clip.v / UMask.v / Topology.v.  PARTIAL: save / reopen and convention detection of the '
+        'and convention identical.  Model Fill.v holds the choice of the value that stands for a missing entry in a clipped '
+        'integer table (all nines beyond every count, fitted to the stored type): C09_fill_fits_stored_type, '
+        'C09_entries_survive_signed / _unsigned prove that every entry written is read back as the element it names and every '
+        'missing entry as missing (for unsigned types while the type has a spare value), C09_old_fill_refuted carries the '
+        'witness of the defect repaired by 524840a; per run the fill stored in every saved table is compared with the model and '
+        'meshes stored as int8 / int16 / uint8 / uint16, some using every positive value of the type, are clipped and reopened.',
+        'Trusted: Coq kernel; models Clip.v / UMask.v / Topology.v / Fill.v.  PARTIAL: save / reopen and convention detection of the '
         'result are established per run only; polygons are compared only where geometry is stored explicitly (bounds, nodes) '
         'as the property states.',
         'DESIGN.md section 4 C09'),
